@@ -192,7 +192,8 @@ func runWrappers(c *fw.Ctx) {
 			}
 			sortFloats(br)
 			last := br[len(br)-1]
-			return nodesFromBreaks(0, inf, br, 0, math.Max(last, 1))
+			// X = exp(Y) - c lives on (-c, inf)
+			return nodesFromBreaks(-pc, inf, br, 0, math.Max(last, 1))
 		})
 		cs.Cover("wrap:logtransform/" + pcl)
 		cs.Nontrivial("logtransform", name, fmtParams(p), pc, fmt.Sprint(xs))
